@@ -316,6 +316,11 @@ def symbolic_attractor_test(
     # completed and no unprocessed variables remaining.
     all_done = False
 
+    # True if the previous pass could not add any new saturation variable. In that
+    # case, the forward reach set must be allowed to grow regardless of its size,
+    # otherwise the main cycle can repeat forever without making any progress.
+    no_variable_added = False
+
     while not all_done:
         all_done = True
 
@@ -341,7 +346,7 @@ def symbolic_attractor_test(
                     ) and avoid.symbolic_size() >= updated.symbolic_size()
                     all_variables_done = (
                         len(conflict_vars) == 0 and len(other_vars) == 0
-                    )
+                    ) or no_variable_added
                     if no_avoid or avoid_is_larger or all_variables_done:
                         reach_set = updated
                         saturation_done = False
@@ -414,6 +419,7 @@ def symbolic_attractor_test(
             distance += 1
 
         other_sorted = sorted(other_vars, key=lambda x: distances[x])
+        no_variable_added = True
         for var in conflict_vars + other_sorted:
             can_go_fwd = graph.var_post_out(var, reach_set)
             if avoid is not None:
@@ -425,6 +431,7 @@ def symbolic_attractor_test(
                 continue
 
             all_done = False
+            no_variable_added = False
 
             reach_set = reach_set.union(can_go_fwd)
             if avoid is not None:
